@@ -468,8 +468,12 @@ func init() {
 			} else {
 				c.Count("implementation panics")
 			}
-			c.Line("linkScan", Hx(d), Hxb(table), want)
-			scanLines = append(scanLines, "linkScan\t"+Hx(d)+"\t"+Hxb(table))
+			fn := "linkScan" // short documents: also evaluated inside Coq
+			if len(d) > 64 {
+				fn = "linkScanL"
+			}
+			c.Line(fn, Hx(d), Hxb(table), want)
+			scanLines = append(scanLines, fn+"\t"+Hx(d)+"\t"+Hxb(table))
 			wants = append(wants, want)
 			c.Count("documents")
 			c.Add("document bytes", len(d))
